@@ -15,9 +15,9 @@ LEVEL_TEXT = ('Partial. Coq theorems over R, for arbitrary oracles f, f\', about
               'implicit-function identity (Coquelicot). The clause "sign change => a root within tolerance is returned" is REFUTED for '
               'the faithful model in exact rational arithmetic (iteration cap) and reproduced on the code (known finding F7, open by design; F7b/F7c/F7d fixed). Binary64 behaviour and the prologue/epilogue are tied by correspondence (bit-exact against eager rtsafe_).')
 TECHNIQUE = 'Coq proof (Reals + Coquelicot) over a state machine built from kernels regenerated from the Python AST; vm_compute/PrimFloat correspondence'
-GEN = ['ScalarRootFind']
-TARGETS = ['proofs/L_C17.vo', 'model/M_C17.vo']
-COQ_FILES = ['base/Num.v', 'model/M_C17.v', 'proofs/L_C17.v', 'props/P_C17.v']
+GEN = ['ScalarRootFind', 'C17FindRoot']
+TARGETS = ['proofs/L_C17.vo', 'model/M_C17.vo', 'model/M_C17d.vo', 'proofs/L_C17d.vo', 'proofs/L_C17f.vo']
+COQ_FILES = ['base/Num.v', 'model/M_C17.v', 'model/M_C17d.v', 'proofs/L_C17.v', 'proofs/L_C17d.v', 'proofs/L_C17f.v', 'props/P_C17.v']
 TRUSTED = ['Coq 8.16.1 kernel + vm_compute (no native_compute)',
            'tools/vlib/py2coq.py translator (loop_cond, loop_body, bisection_step, newton_step are regenerated; closure variables x_tol, r_tol, '
            'max_iters and the oracle f_and_fprime become parameters)',
@@ -281,6 +281,23 @@ def gen_cases(ctx):
             b0, b1 = b1, b0
         mi, xt, rt = settings()
         cases.append(dict(kind='polyq', P=P, x0=guess(b0, b1), b0=b0, b1=b1, mi=mi, xt=xt, rt=rt, stream='nan-insensitive'))
+    # linear residual through (almost) a bracket end at 0, guess chosen (by simulating one loop body in python floats) so that the
+    # ROUNDED Newton range test accepts a step whose rounded iterate is outside the bracket (theorem C17_binary64_result_in_bracket_refuted,
+    # finding F7f): exercises the model-vs-eager tie there, the compiled path (which fuses the test) and the eager conclusion
+    want, tries = ctx.n(6, 30), 0
+    while want > 0 and tries < 4000:
+        tries += 1
+        sl, x0 = r.uniform(0.5, 3), r.uniform(0.01, 0.5)
+        F = sl * x0
+        b = (x0 - 0.0) * sl - F
+        a = (x0 - 1.0) * sl - F
+        sg = lambda v: 1.0 if v > 0 else -1.0 if v < 0 else 0.0
+        if sg(a) * sg(b) > 0 or abs(2.0 * F) > abs(1.0 * sl) or not (x0 + (-F / sl) < 0.0):
+            continue
+        want -= 1
+        lead = r.choice([1.0, -1.0])           # increasing (xl = 0) or decreasing (xh = 0) residual
+        P = [0.0, 0.0, 0.0, lead * sl, lead * -1e-30] + [0.0, 0.0, 0.0, lead * sl]
+        cases.append(dict(kind='poly', P=P, x0=x0, b0=0.0, b1=1.0, mi=50, xt=r.choice([0.25, 0.25, 1e-13]), rt=0.0, stream='end-overshoot'))
     # smooth monotone functions on wide brackets: Newton must be accepted for the run to finish within the cap
     for _ in range(ctx.n(16, 120)):
         t = r.randrange(3)
@@ -508,7 +525,11 @@ def concl(case, out, tag):
             if not (lo <= x <= hi):
                 # residual magnitudes below 1e-150: the product in the loop's Newton range test underflows to 0, the test is disabled
                 under = max(abs(fl), abs(fh), abs(fc) if fc == fc else 0.0) < 1e-150
-                bad.append(('result_in_bracket', 'x=%r outside [%r, %r]' % (x, lo, hi), 'range_test_underflow' if under else None))
+                # op-by-op execution only (finding F7f): outside by a rounding error of the accepted Newton step (<= 4 ulp of the bracket scale)
+                dist = (lo - x) if x < lo else (x - hi)
+                rounding = tag == 'rtsafe_ eager' and dist <= 4 * math.ulp(max(abs(lo), abs(hi), hi - lo))
+                bad.append(('result_in_bracket', 'x=%r outside [%r, %r]' % (x, lo, hi),
+                            'range_test_underflow' if under else 'newton_overshoot_rounding' if rounding else None))
     if not nan and cv and it > 0:
         moved = abs(dx) <= math.ulp(x) if x != 0 else dx == 0
         if not (abs(dx) < case['xt'] or rs <= case['rt'] * (1 + 1e-9) or moved):
@@ -603,6 +624,125 @@ def grad_eval(cases):
     return res
 
 
+# ----------------------------------------------------------------------------- derivative of the root under rescaling of the residual
+# (seed C17-5: a tangent solve that returns 0 below an ABSOLUTE slope threshold).  The derivative of the root does not depend on the
+# unit the residual is expressed in: f and c*f have the same roots and the same -f_a/f_x.  Residuals scaled by 10^k, k in -20..20,
+# and families whose slope at the root is tiny without any scaling (flat powers near a small root, shallow lines).
+
+SCALED_FAMS = ('cubic', 'flatpow', 'shallow', 'sigmoid')
+
+
+def _scaled_f(name):
+    import jax.numpy as jnp
+    # f(x, a, c, m): residual family; a = parameter the root depends on, c = scale, m = second shape parameter
+    return {'cubic': lambda x, a, c, m: c * (x ** 3 + m * x - a),                         # slope c (3 x^2 + m)
+            'flatpow': lambda x, a, c, m: c * (x ** 9 - a ** 9),                          # slope 9 c x^8: ~1e-13 c at a = 0.02
+            'shallow': lambda x, a, c, m: (3.0 * c) * (a - x) + c * (a - x) ** 3 * m,     # decreasing, slope -3c at the root x = a
+            'sigmoid': lambda x, a, c, m: c * ((x - a) / (1.0 + jnp.abs(x - a)) + m * (x - a))}[name]
+
+
+def scaled_cases(ctx):
+    """-> list of (family, a, k, m, x0, b0, b1): residual scale c = 10^k"""
+    r = ctx.rng('scaled-grad')
+    out = []
+    ks = list(range(-20, 21))
+    n = ctx.n(3, 12)
+    for fam in SCALED_FAMS:
+        for k in ks:
+            for _ in range(n if k % 4 == 0 or abs(k) >= 11 else max(1, n // 3)):
+                if fam == 'cubic':
+                    a, m, b0, b1 = r.uniform(0.5, 6), r.choice([0.0, 0.0, r.uniform(0, 2)]), 1e-3, 10.0
+                elif fam == 'flatpow':
+                    a, m, b0, b1 = r.uniform(0.015, 0.06), 0.0, 0.0, 1.0
+                elif fam == 'shallow':
+                    a, m, b0, b1 = r.uniform(-1.5, 1.5), r.uniform(0.1, 1.0), -2.0, 2.0
+                else:
+                    a, m, b0, b1 = r.uniform(-2, 2), r.uniform(0.0, 0.5), -5.0, 5.0
+                if r.random() < 0.3:
+                    b0, b1 = b1, b0
+                out.append((fam, a, k, m, r.uniform(min(b0, b1) - 1, max(b0, b1) + 1), b0, b1))
+    return out
+
+
+def scaled_eval(cases):
+    """-> list of (i, root, jacfwd, grad, ift, f_x, f_a) through the public find_root, jit + vmap, one compilation per family"""
+    E = _setup()
+    jax, jnp, S = E['jax'], E['jnp'], E['S']
+    st = S.get_settings()
+    res = []
+    for fam in SCALED_FAMS:
+        idx = [i for i, c in enumerate(cases) if c[0] == fam]
+        if not idx:
+            continue
+        key = ('scaled', fam)
+        if key not in E['jit']:
+            f = _scaled_f(fam)
+
+            def root(a, c, m, x0, b0, b1, f=f):
+                return S.find_root(lambda x: f(x, a, c, m), x0, jnp.array([b0, b1]), st)[0]
+
+            def one(a, c, m, x0, b0, b1, f=f, root=root):
+                x, g = jax.value_and_grad(root)(a, c, m, x0, b0, b1)
+                jf = jax.jacfwd(root)(a, c, m, x0, b0, b1)
+                fx = jax.grad(f, 0)(x, a, c, m)
+                fa = jax.grad(f, 1)(x, a, c, m)
+                return x, jf, g, fx, fa
+            E['jit'][key] = jax.jit(jax.vmap(one))
+        col = lambda j: jnp.array([float(cases[i][j]) for i in idx])
+        cs = jnp.array([10.0 ** cases[i][2] for i in idx])
+        x, jf, g, fx, fa = E['jit'][key](col(1), cs, col(3), col(4), col(5), col(6))
+        for k, i in enumerate(idx):
+            fxk, fak = float(fx[k]), float(fa[k])
+            ift = -fak / fxk if fxk != 0 else math.nan
+            res.append((i, float(x[k]), float(jf[k]), float(g[k]), ift, fxk, fak))
+    return res
+
+
+def scaled_check(ctx, model_ok):
+    cases = scaled_cases(ctx)
+    rows = scaled_eval(cases)
+    hist, tiny, nchk = {}, 0, 0
+    base = {}          # (family, a, m, x0, b0, b1 rounded) is not shared between scales; the scale-1 derivative is the IFT value itself
+    for (i, x, jf, g, ift, fx, fa) in rows:
+        ctx.count('evaluations')
+        fam, a, k, m, x0, b0, b1 = cases[i]
+        if x != x or ift != ift:
+            ctx.count('scaled_gradient_root_nan_skipped')
+            continue
+        nchk += 1
+        hist[k] = hist.get(k, 0) + 1
+        if 0 < abs(fx) < 1e-12:
+            tiny += 1
+        for nm, d in (('jax.jacfwd', jf), ('jax.grad', g)):
+            if not C.close(d, ift, rtol=1e-9, atol=0.0):
+                ctx.fail('conclusion', '%s of the root of %s (residual scaled by 1e%d, a=%r, m=%r, x0=%r, bracket [%r,%r]) = %r but the '
+                         'implicit-function value -f_a/f_x = %r (root %r, slope at the root f_x = %r): the derivative of the root must not '
+                         'depend on the unit of the residual' % (nm, fam, k, a, m, x0, b0, b1, d, ift, x, fx),
+                         case=dict(clause='ift_scaled_gradient', fam=fam, a=a, k=k, m=m, x0=x0, b0=b0, b1=b1, mode=nm, deriv=d, ift=ift, slope=fx, sig=None),
+                         concrete=True)
+    ctx.count('scaled_gradient_checks', nchk)
+    ctx.count('scaled_gradient_checks_with_slope_below_1e-12', tiny)
+    ctx.cov['scaled_gradient_scales'] = {'1e%d' % k: v for k, v in sorted(hist.items())}
+    if not model_ok or not rows:
+        return
+    # L1: custom_root's forward rule over the GENERATED tangent solve (model/M_C17d.v:root_jvp at binary64) against jax.jacfwd
+    r = ctx.rng('scaled-grad-model')
+    pick = r.sample(range(len(rows)), min(len(rows), ctx.n(60, 300)))
+    pick = [j for j in pick if rows[j][1] == rows[j][1] and rows[j][4] == rows[j][4]]
+    ex = ['enc_root_jvp %s %s %s' % (C.cf(rows[j][5]), C.cf(rows[j][6]), C.cf(1.0)) for j in pick]
+    out = C.coq_eval(['From OV.model Require Import M_C17d.'], ex, 'C17d', shard=150)
+    mism = 0
+    for j, rr in zip(pick, out):
+        (mv,) = C.dec_floats(rr)
+        if not C.close(mv, rows[j][2], rtol=4e-16, atol=5e-324):
+            mism += 1
+            if mism <= 6:
+                ctx.fail('correspondence', 'model root_jvp (generated tangent solve, binary64) = %r but jax.jacfwd of find_root = %r for %r (f_x=%r, f_a=%r)'
+                         % (mv, rows[j][2], cases[rows[j][0]], rows[j][5], rows[j][6]), case=dict(case=list(cases[rows[j][0]]), model=mv, impl=rows[j][2]))
+    ctx.count('root_jvp_model_vs_jacfwd_comparisons', len(pick))
+    ctx.count('root_jvp_model_vs_jacfwd_mismatches', mism)
+
+
 # ----------------------------------------------------------------------------- the check
 
 def correspondence(ctx, model_ok):
@@ -621,7 +761,7 @@ def correspondence(ctx, model_ok):
         hist[h] = hist.get(h, 0) + 1
     ctx.count('distinct_nontrivial', len(distinct))
     ctx.cov['outcomes'] = hist
-    ctx.cov['streams'] = {s: sum(1 for c in cases if c['stream'] == s) for s in ('random', 'endpoint', 'multiple-root', 'wide-monotone', 'tiny-residual', 'nan-insensitive', 'within-tolerance')}
+    ctx.cov['streams'] = {s: sum(1 for c in cases if c['stream'] == s) for s in ('random', 'endpoint', 'multiple-root', 'wide-monotone', 'tiny-residual', 'nan-insensitive', 'within-tolerance', 'end-overshoot')}
     # a few direct (un-vmapped) calls of the public API must agree with the batched ones
     r = ctx.rng('single')
     for i in r.sample(range(len(cases)), min(ctx.n(6, 25), len(cases))):
@@ -646,13 +786,26 @@ def correspondence(ctx, model_ok):
                          % (nm, a, nm, b, gc[i][0], gc[i][1], gc[i][2], gc[i][3], x),
                          case=dict(clause='ift_gradient', fam=gc[i][0], p=gc[i][1], q=gc[i][2], x0=gc[i][3], grad=a, ift=b, sig=None), concrete=True)
     ctx.count('gradient_checks', ng)
+    scaled_check(ctx, model_ok)
+    # rtsafe_ executed op by op on the end-overshoot stream: the conclusion clauses on its outputs (finding F7f)
+    eager_cache = {}
+    nout = 0
+    for i, c in enumerate(cases):
+        if c['stream'] == 'end-overshoot':
+            e = eager_cache[i] = run_eager(c)
+            ctx.count('evaluations')
+            bad = concl(c, e, 'rtsafe_ eager')
+            nout += any(b[0] == 'result_in_bracket' for b in bad)
+            report(ctx, c, e, 'rtsafe_ eager', bad)
+    ctx.count('eager_overshoot_cases', len(eager_cache))
+    ctx.count('eager_results_outside_bracket_by_rounding', nout)
     if not model_ok:
         return
     # ---- L1: the model at binary64 against the implementation
     r2 = ctx.rng('eager')
     ne = min(len(cases), ctx.n(70, 450))
     pick = set(r2.sample(range(len(cases)), ne))
-    pick |= {i for i, c in enumerate(cases) if c['stream'] in ('endpoint', 'multiple-root', 'tiny-residual', 'nan-insensitive', 'within-tolerance')}
+    pick |= {i for i, c in enumerate(cases) if c['stream'] in ('endpoint', 'multiple-root', 'tiny-residual', 'nan-insensitive', 'within-tolerance', 'end-overshoot')}
     ex = ['enc_result (let g := %s in rtsafe (feval g) (fdiff g) %s %s %s %d %s %s)'
           % (coq_fam(c['kind'], c['P']), C.cf(c['x0']), C.cf(c['b0']), C.cf(c['b1']), c['mi'], C.cf(c['xt']), C.cf(c['rt'])) for c in cases]
     res = C.coq_eval(IMPORTS, ex, 'C17', shard=150)
@@ -685,7 +838,7 @@ def correspondence(ctx, model_ok):
         if i in pick and 0 < abs(mF) < 1e-300:
             ctx.count('subnormal_residual_eager_comparison_skipped')      # XLA flushes subnormals to zero, PrimFloat does not
         elif i in pick:
-            e = run_eager(c)
+            e = eager_cache.get(i) or run_eager(c)
             ctx.count('evaluations')
             ok = (e[1] == mcv) and (e[2] == int(mit) or (why == 1 and c['kind'] == 'polyq')) and ((e[0] != e[0]) == (mx != mx))
             if ok and mx == mx:
@@ -743,6 +896,9 @@ def _witness_run(w):
 
 def finding_fails(ctx, f):
     w = f['witness']
+    if 'case' in w and w.get('mode') == 'eager':
+        case = w['case']
+        return any(b[0] == w['clause'] and b[2] == w['sig'] for b in concl(case, run_eager(case), 'rtsafe_ eager'))
     if 'case' in w:
         case = w['case']
         return any(b[0] == w['clause'] for b in concl(case, run_compiled([case])[0], 'find_root jit+vmap'))
@@ -757,6 +913,10 @@ def finding_fails(ctx, f):
 def matches_finding(fl, f):
     c = fl.get('case') or {}
     w = f['witness']
+    if w['sig'] == 'newton_overshoot_rounding':
+        # only the op-by-op execution, only a result outside the bracket by a rounding error of the accepted Newton step
+        return (fl.get('kind') == 'conclusion' and c.get('clause') == 'result_in_bracket' and c.get('sig') == 'newton_overshoot_rounding'
+                and c.get('mode') == 'rtsafe_ eager')
     if w['sig'] == 'range_test_underflow':
         return fl.get('kind') == 'conclusion' and c.get('clause') == 'result_in_bracket' and c.get('sig') == 'range_test_underflow'
     if fl.get('kind') != 'conclusion' or c.get('clause') != 'sign_change_returns_root' or c.get('sig') != w['sig']:
@@ -787,6 +947,12 @@ def replay(ctx, path):
         (i, x, gp, gq, ip, iq, fx), = grad_eval([t])
         bad = not (C.close(gp, ip, rtol=1e-7, atol=1e-9) and C.close(gq, iq, rtol=1e-7, atol=1e-9))
         print('implementation now: grad=(%r,%r) ift=(%r,%r)' % (gp, gq, ip, iq))
+        return 1 if bad else 0
+    if case.get('clause') == 'ift_scaled_gradient':
+        t = (case['fam'], case['a'], case['k'], case['m'], case['x0'], case['b0'], case['b1'])
+        (i, x, jf, g, ift, fx, fa), = scaled_eval([t])
+        bad = not (C.close(jf, ift, rtol=1e-9, atol=0.0) and C.close(g, ift, rtol=1e-9, atol=0.0))
+        print('implementation now: root=%r jacfwd=%r grad=%r ift=%r slope=%r' % (x, jf, g, ift, fx))
         return 1 if bad else 0
     if 'kind' not in case:
         print('case is replayed by re-running the check')
